@@ -43,7 +43,7 @@ def main():
   a = ap.parse_args()
   res = []
   for m in MUTANTS:
-    if a.prop and m["property"] != a.prop.upper():
+    if a.prop and m["property"] not in a.prop.upper().split(","):
       continue
     if a.id and a.id not in m["id"]:
       continue
@@ -52,6 +52,12 @@ def main():
     ok = (r["result"] == r["expect"])
     print("%-4s %-34s expect=%-7s got=%-12s %s %s %s" % (m["property"], m["id"], r["expect"], r["result"], "OK " if ok else "MISMATCH", r.get("mechanisms", ""), r.get("wall", "")), flush=True)
     res.append(r)
+    if a.write:
+      # written after every mutant, so that an interrupted run keeps what it measured
+      path = os.path.join(ROOT, "selftest", "kill_matrix.json")
+      old = {x["id"]: x for x in json.load(open(path))} if os.path.exists(path) else {}
+      old[r["id"]] = r
+      json.dump(sorted(old.values(), key=lambda x: (x["property"], x["id"])), open(path, "w"), indent=1)
   if a.write:
     path = os.path.join(ROOT, "selftest", "kill_matrix.json")
     old = {}
